@@ -40,6 +40,60 @@ def join_harness(I: Interp) -> None:
     I.prove("J-port-suffix", z3.SuffixOf(z3.Concat(z3.StringVal(":"), p), models.str_term(r)))
 
 
+def split_harness(I: Interp) -> None:
+    """`net.split_host_port` over the contracts of ipaddress.ip_address (returns for an address
+    literal, ValueError otherwise) and urlparse("//" + s) (hostname, netloc, port: int | None):
+    the port of the string is returned whenever there is one - port 0 included -, the default only
+    when there is none."""
+    import ipaddress
+    import urllib.parse as up
+    from gallia import net
+    hp = VStr(t=z3.String("hostport"))
+    I.inputs["hostport"] = hp
+    default: V = NONE if I.choose([z3.BoolVal(True)] * 2) == 0 else \
+        I.fresh_int("default_port", 0, 65535, inp=True)
+    is_ip = I.choose([z3.BoolVal(True)] * 2) == 1
+    canon = VStr(t=z3.String("canonical_ip"))
+    I.assume(z3.Length(canon.t) > 0)
+
+    def c_ip(I2: Interp, a: list[V], k: dict[str, V]) -> V:
+        if not is_ip:
+            I2.raise_py(ValueError, "does not appear to be an IPv4 or IPv6 address")
+        return VObj(object, {}, lazy=True, tag="ipaddr")
+    models.MODELS[ipaddress.ip_address] = c_ip
+    orig_str = models.MODELS[str]
+    models.MODELS[str] = lambda I2, a, k: canon if (
+        a and isinstance(a[0], VObj) and a[0].tag == "ipaddr") else orig_str(I2, a, k)
+    has_port = I.choose([z3.BoolVal(True)] * 2) == 1
+    uport: V = I.fresh_int("port_in_string", 0, 65535, inp=True) if has_port else NONE
+    uhost = VStr(t=z3.String("hostname_in_string"))
+    I.assume(z3.Length(uhost.t) > 0)
+    models.MODELS[up.urlparse] = lambda I2, a, k: VObj(
+        up.ParseResult, {"hostname": uhost, "netloc": hp, "port": uport}, lazy=True)
+    try:
+        r = I.call(net.split_host_port, hp, default)
+    except PyExc as e:
+        I.fail("S-split_host_port-does-not-raise", e.exc.cls.__name__)
+        return
+    finally:
+        models.MODELS[str] = orig_str
+    host, port = r.items
+    if is_ip:
+        I.prove("S-address-literal-has-no-port(default-applies)",
+                z3.BoolVal(port is default) if not isinstance(port, VInt) or not isinstance(
+                    default, VInt) else port.t == default.t)
+        return
+    I.prove("S-host-is-the-hostname-of-the-string", models.str_term(host) == uhost.t)
+    if has_port:
+        I.prove("S-port-of-the-string-is-returned(0-included)",
+                port.t == uport.t if isinstance(port, VInt) else z3.BoolVal(False),
+                "port 0 is falsy")
+    else:
+        I.prove("S-default-port-only-when-the-string-has-none",
+                z3.BoolVal(port is default) if not isinstance(port, VInt) or not isinstance(
+                    default, VInt) else port.t == default.t)
+
+
 def install(ex: Explorer) -> None:
     import urllib.parse as up
 
@@ -81,12 +135,20 @@ def from_parts_harness(with_port: bool):
             return
         sc, netloc, path, params, query, frag = tup.items
         I.prove("U-scheme", models.str_term(sc) == scheme.t)
+        # RFC 3986: an IPv6 literal in the authority is bracketed, with or without a port
+        # (statement: the URI parses back to the same host and port)
+        h = host.t
+        colon = z3.Contains(h, z3.StringVal(":"))
         if with_port:
-            want = I.call(net.join_host_port, host, port)
-            I.prove("U-netloc(host-and-port-joined)",
-                    models.str_term(netloc) == models.str_term(want))
+            p = z3.IntToStr(port.t)
+            spec = z3.If(colon, z3.Concat(z3.StringVal("["), h, z3.StringVal("]:"), p),
+                         z3.Concat(h, z3.StringVal(":"), p))
+            I.prove("U-netloc(host-and-port,bracketed-iff-colon-in-host)",
+                    models.str_term(netloc) == spec)
         else:
-            I.prove("U-netloc(host-only)", models.str_term(netloc) == host.t)
+            spec = z3.If(colon, z3.Concat(z3.StringVal("["), h, z3.StringVal("]")), h)
+            I.prove("U-netloc(host-only,bracketed-iff-colon-in-host)",
+                    models.str_term(netloc) == spec)
         I.prove("U-path-params-fragment-empty",
                 z3.BoolVal(all(isinstance(x, VStr) and x.s == "" for x in (path, params, frag))))
         I.prove("U-query-is-urlencode(args)",
@@ -212,7 +274,7 @@ def standin_unit(tier: str, seed: int):
 
 
 def build_units(tier: str, seed: int = 0) -> list[Unit]:
-    units = [Unit("net/join_host_port", join_harness),
+    units = [Unit("net/join_host_port", join_harness), Unit("net/split_host_port", split_harness),
              Unit("TargetURI/from_parts/with-port", from_parts_harness(True), setup=install),
              Unit("TargetURI/from_parts/without-port", from_parts_harness(False), setup=install),
              Unit("utils/auto_int", auto_int_harness)]
@@ -225,8 +287,34 @@ def build_units(tier: str, seed: int = 0) -> list[Unit]:
     return units
 
 
+def native_roundtrip() -> tuple[bool, str]:
+    """join/split and from_parts/parse round trips over hosts x ports (0 and none included)."""
+    import gallia.command  # noqa: F401
+    from gallia import net
+    from gallia.transports.base import TargetURI
+    hosts = ["example.org", "127.0.0.1", "::1", "fe80::1", "2001:db8::8a2e:370:7334"]
+    for host in hosts:
+        for port in (0, 1, 80, 13400, 65535):
+            got = net.split_host_port(net.join_host_port(host, port))
+            if got != (host, port):
+                return True, (f"split_host_port(join_host_port({host!r}, {port})) == {got}")
+        for port in (None, 0, 6801):
+            try:
+                u = TargetURI.from_parts("tcp-lines", host, port, {"k": "v"})
+                back = (u.hostname, u.port)
+            except Exception as e:  # noqa: BLE001
+                return True, (f"TargetURI.from_parts('tcp-lines', {host!r}, {port}, ...) gives "
+                              f"{u.raw!r}, which does not parse back: {type(e).__name__}: {e}")
+            if back != (host, port):
+                return True, (f"TargetURI.from_parts('tcp-lines', {host!r}, {port}, ...) == "
+                              f"{u.raw!r} parses back to {back}")
+    return False, "hosts x ports round trip"
+
+
 def native_replay(unit: str, obligation: str, model: dict) -> tuple[bool, str]:
     from gallia import net
+    if unit == "net/split_host_port" or unit.startswith("TargetURI/from_parts"):
+        return native_roundtrip()
     if unit.startswith("net/") or unit.startswith("TargetURI/from_parts"):
         for host in ("::1", "fe80::1", "example.org", "127.0.0.1"):
             for port in (0, 80, 13400, 65535):
